@@ -76,6 +76,7 @@ FAMILIES = {
     "C09": ["guard"],
     "C30": ["tramp"],
     "C35": ["periodic"],
+    "C37": ["srcfac"],
     "C08": ["opacity"],
     "C05": ["op"],
     "C06": ["op"],
@@ -109,6 +110,8 @@ def units_for(prop, tier):
         us += forward_units(prop)
     if "class" in fams:
         us += class_units(prop)
+    if "srcfac" in fams:
+        us.append({"runner": "srcfac", "prop": prop, "id": "reactivex/observable/::source-factories"})
     if "periodic" in fams:
         us.append({"runner": "periodic", "prop": prop, "id": "reactivex/scheduler/periodicscheduler.py::PeriodicScheduler.schedule_periodic"})
     if "tramp" in fams:
